@@ -1,6 +1,18 @@
 // C06 correspondence harness: losses, AbstractLoss::eval(Data,Data), ErrorFunction (plain, weighted,
 // regularised) and the regularizers of /repo, driven by a case file; one canonical line per input line.
 // usage: c06_loss <casefile>      numbers are "a" or "a/b" (b a power of two => exact doubles); output %a
+//
+// Calling-context stage (every line that evaluates something over a data set: E W R B F N, M, P, Z, A): after the result of the
+// call from the main thread, the same evaluation is repeated
+//   cs=   from the main thread on a fresh instance (serial reference),
+//   c2o= c3o=   from ONE thread of `#pragma omp parallel num_threads(2 / 3)` while the other threads of the team idle,
+//   c2a= c3a=   from EVERY thread of such a region concurrently, thread t on its own instance t (own model, own error function,
+//               own data set object, own random generator; all built BEFORE the region); results separated by ';',
+//   ck=   the team sizes the four regions really had.
+// An ErrorFunction result is written v:dv:g (eval value, evalDerivative value, derivative).  Inside a region SHARK_NUM_THREADS is
+// the size of the enclosing team and the library's own parallel loop runs on an inner team of one thread.  The team sizes are
+// requested with the num_threads clause and omp_set_dynamic(0)/omp_set_max_active_levels(1): independent of OMP_NUM_THREADS,
+// OMP_DYNAMIC and OMP_NESTED.
 #include <shark/ObjectiveFunctions/ErrorFunction.h>
 #include <shark/ObjectiveFunctions/Regularizer.h>
 #include <shark/ObjectiveFunctions/NegativeAUC.h>
@@ -30,6 +42,7 @@
 #include <string>
 #include <vector>
 #include <memory>
+#include <functional>
 
 using namespace shark;
 typedef std::vector<double> DV;
@@ -53,6 +66,47 @@ static std::string hv(RealVector const& v) { std::string s; for (std::size_t i =
 static std::string hm(RealMatrix const& m) { std::string s; for (std::size_t i = 0; i != m.size1(); ++i) for (std::size_t j = 0; j != m.size2(); ++j) { if (i + j) s += ","; s += hx(m(i, j)); } return s.empty() ? "-" : s; }
 static std::string hm(UIntVector const&) { return "-"; }
 static std::string hv(unsigned int) { return "-"; }
+
+// ---- calling-context stage
+typedef std::function<std::string()> Job;
+static std::string safeJob(Job const& j) {
+	try { return j(); }
+	catch (shark::Exception const&) { return "EXC"; }
+	catch (std::exception const&) { return "STDEXC"; }
+	catch (...) { return "UNKEXC"; }
+}
+// jobs: at least 3 independent instances of the same evaluation (instance t is only ever touched by one thread at a time)
+static std::string ctxStage(std::vector<Job> const& jobs, unsigned pick) {
+	std::ostringstream o; std::string teams;
+	o << " cs=" << safeJob(jobs[0]);
+	for (int k = 2; k <= 3; ++k) {      // one thread of the team evaluates, the others idle at the barrier
+		std::string r = "NOTRUN"; int team = 0; int who = (int)(pick % (unsigned)k);
+		#pragma omp parallel num_threads(k) shared(r, team)
+		{
+			#pragma omp single
+			team = omp_get_num_threads();
+			if (omp_get_thread_num() == who) r = safeJob(jobs[0]);
+		}
+		o << " c" << k << "o=" << r;
+		teams += (teams.empty() ? "" : ",") + std::to_string(team);
+	}
+	for (int k = 2; k <= 3; ++k) {      // every thread evaluates its own instance, all at the same time
+		std::vector<std::string> rs(k, "NOTRUN"); int team = 0;
+		#pragma omp parallel num_threads(k) shared(rs, team)
+		{
+			#pragma omp single
+			team = omp_get_num_threads();
+			int t = omp_get_thread_num();
+			if (t < k) rs[t] = safeJob(jobs[t]);
+		}
+		o << " c" << k << "a=";
+		for (int t = 0; t != k; ++t) o << (t ? ";" : "") << rs[t];
+		teams += "," + std::to_string(team);
+	}
+	o << " ck=" << teams;
+	return o.str();
+}
+static unsigned pickOf(std::string const& s) { unsigned h = 0; for (char c : s) h = h * 31u + (unsigned char)c; return h; }
 
 static RealMatrix mat(DV const& v, std::size_t n, std::size_t d) { RealMatrix m(n, d); for (std::size_t i = 0; i != n; ++i) for (std::size_t j = 0; j != d; ++j) m(i, j) = v[i * d + j]; return m; }
 static UIntVector uvec(DV const& v) { UIntVector u(v.size()); for (std::size_t i = 0; i != v.size(); ++i) u(i) = (unsigned int)v[i]; return u; }
@@ -129,10 +183,55 @@ struct Net2Holder {
 	Net2Holder(std::size_t nin, std::size_t nh, std::size_t nout) : l1(nin, nh, true), l2(nh, nout, true), net(l1 >> l2) {}
 };
 
+// one independent instance of an ErrorFunction case: own model, own data set object, own regularizers, own error function, own
+// random generator (mini-batch choice); the loss object (stateless, const interface) is shared
+template<class L> struct EFInst {
+	std::unique_ptr<ModelT> mp; std::unique_ptr<Net2Holder> net; ModelT* model;
+	LabeledData<RealVector, L> ds;
+	OneNormRegularizer<> r1; TwoNormRegularizer<> r2;
+	std::unique_ptr<ErrorFunction<> > ef;
+	random::rng_type rng;
+};
+template<class L>
+std::shared_ptr<EFInst<L> > makeInst(char kind, AbstractLoss<L, RealVector>& loss, std::vector<RealVector> const& in, std::vector<L> const& lab,
+                                     std::vector<std::size_t> const& sz, std::size_t nin, std::size_t nh, std::size_t nout,
+                                     DV const& weights, std::string const& reg, double lam, DV const& mask, std::string const& mtype) {
+	std::shared_ptr<EFInst<L> > I(new EFInst<L>());
+	if (mtype == "net2") { I->net.reset(new Net2Holder(nin, nh, nout)); I->model = &I->net->net; }
+	else { I->mp = makeModel(mtype, nin, nout); I->model = I->mp.get(); }
+	I->ds = LabeledData<RealVector, L>(mkData(in, sz), mkData(lab, sz));
+	RealVector mk(mask.size()); for (std::size_t i = 0; i != mask.size(); ++i) mk(i) = mask[i];
+	if (mask.size()) { I->r1.setMask(mk); I->r2.setMask(mk); }
+	if (!weights.empty()) {
+		WeightedLabeledData<RealVector, L> wds(I->ds, mkData(weights, sz));
+		I->ef.reset(new ErrorFunction<>(wds, I->model, &loss));
+	} else I->ef.reset(new ErrorFunction<>(I->ds, I->model, &loss, kind == 'B'));
+	if (kind == 'R') { if (reg == "one") I->ef->setRegularizer(lam, &I->r1); else I->ef->setRegularizer(lam, &I->r2); }
+	I->ef->setRng(&I->rng);
+	I->ef->init();
+	return I;
+}
+template<class L>
+std::string efCtx(char kind, AbstractLoss<L, RealVector>& loss, std::vector<RealVector> const& in, std::vector<L> const& lab,
+                  std::vector<std::size_t> const& sz, RealVector const& p, std::size_t nin, std::size_t nh, std::size_t nout,
+                  DV const& weights, std::string const& reg, double lam, DV const& mask, std::string const& mtype, long seed) {
+	std::vector<Job> jobs;
+	for (int t = 0; t != 3; ++t) {
+		std::shared_ptr<EFInst<L> > I = makeInst<L>(kind, loss, in, lab, sz, nin, nh, nout, weights, reg, lam, mask, mtype);
+		jobs.push_back([I, p, kind, seed]() {
+			if (kind == 'B') I->rng.seed((unsigned)seed);
+			double v = I->ef->eval(p);
+			RealVector g; double dv = I->ef->evalDerivative(p, g);
+			return hx(v) + ":" + hx(dv) + ":" + hv(g);
+		});
+	}
+	return ctxStage(jobs, (unsigned)(in.size() + 7 * sz.size() + p.size()));
+}
+
 template<class L>
 std::string runEF(char kind, AbstractLoss<L, RealVector>& loss, std::vector<RealVector> const& in, std::vector<L> const& lab,
                   std::vector<std::size_t> const& sz, DV const& params, std::size_t nin, std::size_t nout,
-                  DV const& weights, std::string const& reg, double lam, DV const& mask, std::string const& mtype, bool fd, long seed, ModelT* ext = 0) {
+                  DV const& weights, std::string const& reg, double lam, DV const& mask, std::string const& mtype, bool fd, long seed, ModelT* ext = 0, std::size_t nh = 0) {
 	std::ostringstream o;
 	std::unique_ptr<ModelT> mp; if (!ext) mp = makeModel(mtype, nin, nout);
 	ModelT& model = ext ? *ext : *mp;
@@ -160,7 +259,8 @@ std::string runEF(char kind, AbstractLoss<L, RealVector>& loss, std::vector<Real
 	RealVector g;
 	double dv = ef->evalDerivative(p, g);
 	o << "v=" << hx(v) << " dv=" << hx(dv) << " g=" << hv(g);
-	if (kind == 'B') return o.str();
+	std::string ctx = efCtx<L>(kind, loss, in, lab, sz, p, nin, nh, nout, weights, reg, lam, mask, mtype, seed);
+	if (kind == 'B') return o.str() + ctx;
 	// brute force: loss of every element through the single-element interface on the model's single-input prediction
 	model.setParameterVector(p);
 	std::string el;
@@ -191,7 +291,7 @@ std::string runEF(char kind, AbstractLoss<L, RealVector>& loss, std::vector<Real
 		RealVector pg; double pv = plain.eval(p); double pdv = plain.evalDerivative(p, pg);
 		o << " rv=" << hx(rv) << " rdv=" << hx(rdv) << " rg=" << hv(rg) << " pv=" << hx(pv) << " pdv=" << hx(pdv) << " pg=" << hv(pg);
 	}
-	return o.str();
+	return o.str() + ctx;
 }
 
 // ---- finite differences of a loss w.r.t. the prediction (batch interface)
@@ -249,6 +349,12 @@ static std::string handle(std::string const& line) {
 		RealVector wv(w.size()); for (std::size_t i = 0; i != w.size(); ++i) wv(i) = w[i];
 		double z = zl.eval(mkData(uints(labs), sz), mkData(rows(preds, labs.size(), dim), sz), wv);
 		o << "z=" << hx(z);
+		std::vector<Job> jobs;
+		for (int t = 0; t != 3; ++t) {
+			Data<unsigned int> dl = mkData(uints(labs), sz); Data<RealVector> dp = mkData(rows(preds, labs.size(), dim), sz);
+			jobs.push_back([param, dl, dp, wv]() { ZeroOneLoss<unsigned int, RealVector> l(param); return hx(l.eval(dl, dp, wv)); });
+		}
+		o << ctxStage(jobs, pickOf(line));
 		return o.str();
 	}
 	if (kind == 'L' || kind == 'M') {
@@ -266,10 +372,18 @@ static std::string handle(std::string const& line) {
 			omp_set_num_threads((int)T);
 			auto sz = sizes(s[1]);
 			double m;
-			if (b.vv) { std::size_t n = preds.size() / dim; m = b.vv->eval(mkData(rows(labs, n, dim), sz), mkData(rows(preds, n, dim), sz)); }
-			else if (b.cv) { std::size_t n = labs.size(); m = b.cv->eval(mkData(uints(labs), sz), mkData(rows(preds, n, dim), sz)); }
-			else m = b.cc->eval(mkData(uints(labs), sz), mkData(uints(preds), sz));
-			o << "m=" << hx(m);
+			std::vector<Job> jobs;      // calling-context stage: every instance has its own data set objects, the loss object is shared
+			if (b.vv) {
+				std::size_t n = preds.size() / dim; m = b.vv->eval(mkData(rows(labs, n, dim), sz), mkData(rows(preds, n, dim), sz));
+				for (int t = 0; t != 3; ++t) { Data<RealVector> dl = mkData(rows(labs, n, dim), sz), dp = mkData(rows(preds, n, dim), sz); auto* lp = b.vv.get(); jobs.push_back([lp, dl, dp]() { return hx(lp->eval(dl, dp)); }); }
+			} else if (b.cv) {
+				std::size_t n = labs.size(); m = b.cv->eval(mkData(uints(labs), sz), mkData(rows(preds, n, dim), sz));
+				for (int t = 0; t != 3; ++t) { Data<unsigned int> dl = mkData(uints(labs), sz); Data<RealVector> dp = mkData(rows(preds, n, dim), sz); auto* lp = b.cv.get(); jobs.push_back([lp, dl, dp]() { return hx(lp->eval(dl, dp)); }); }
+			} else {
+				m = b.cc->eval(mkData(uints(labs), sz), mkData(uints(preds), sz));
+				for (int t = 0; t != 3; ++t) { Data<unsigned int> dl = mkData(uints(labs), sz), dp = mkData(uints(preds), sz); auto* lp = b.cc.get(); jobs.push_back([lp, dl, dp]() { return hx(lp->eval(dl, dp)); }); }
+			}
+			o << "m=" << hx(m) << ctxStage(jobs, pickOf(line));
 		}
 		return o.str();
 	}
@@ -301,8 +415,8 @@ static std::string handle(std::string const& line) {
 		LossBox b = makeLoss(name, param, DV());
 		std::size_t n = in.size() / nin;
 		Net2Holder h(nin, nh, nout);
-		if (b.vv) o << runEF<RealVector>(kind, *b.vv, rows(in, n, nin), rows(labs, n, labs.size() / (n ? n : 1)), sz, params, nin, nout, DV(), "", 0, DV(), "net2", false, 0, &h.net);
-		else if (b.cv) o << runEF<unsigned int>(kind, *b.cv, rows(in, n, nin), uints(labs), sz, params, nin, nout, DV(), "", 0, DV(), "net2", false, 0, &h.net);
+		if (b.vv) o << runEF<RealVector>(kind, *b.vv, rows(in, n, nin), rows(labs, n, labs.size() / (n ? n : 1)), sz, params, nin, nout, DV(), "", 0, DV(), "net2", false, 0, &h.net, nh);
+		else if (b.cv) o << runEF<unsigned int>(kind, *b.cv, rows(in, n, nin), uints(labs), sz, params, nin, nout, DV(), "", 0, DV(), "net2", false, 0, &h.net, nh);
 		else throw std::runtime_error("loss not usable with a model");
 		return o.str();
 	}
@@ -341,6 +455,15 @@ static std::string handle(std::string const& line) {
 		double v = nll.eval(p);
 		RealVector g; double dv = nll.evalDerivative(p, g);
 		o << "v=" << hx(v) << " dv=" << hx(dv) << " g=" << hv(g);
+		struct PInst { LinearModel<> model; UnlabeledData<RealVector> data; std::unique_ptr<NegativeLogLikelihood> nll; PInst(std::size_t nin) : model(nin, 1, true) {} };
+		std::vector<Job> jobs;
+		for (int t = 0; t != 3; ++t) {
+			std::shared_ptr<PInst> I(new PInst(nin));
+			I->data = mkData(rows(in, in.size() / nin, nin), sz);
+			I->nll.reset(new NegativeLogLikelihood(I->data, &I->model));
+			jobs.push_back([I, p]() { double v = I->nll->eval(p); RealVector g; double dv = I->nll->evalDerivative(p, g); return hx(v) + ":" + hx(dv) + ":" + hv(g); });
+		}
+		o << ctxStage(jobs, pickOf(line));
 		return o.str();
 	}
 	if (kind == 'A') {   // A invert T [dim] | sizes | labels | scores (n*dim numbers) : NegativeAUC on dim-column predictions (default 1)
@@ -352,6 +475,12 @@ static std::string handle(std::string const& line) {
 		double a = labs.empty() ? auc.eval(Data<unsigned int>(), Data<RealVector>())
 		                        : auc.eval(mkData(uints(labs), sz), mkData(rows(sc, labs.size(), dim), sz));
 		o << "a=" << hx(a);
+		std::vector<Job> jobs;
+		for (int t = 0; t != 3; ++t) {
+			Data<unsigned int> dl = mkData(uints(labs), sz); Data<RealVector> dp = mkData(rows(sc, labs.size(), dim), sz);
+			jobs.push_back([inv, dl, dp]() { NegativeAUC<unsigned int, RealVector> l(inv); return hx(l.eval(dl, dp)); });
+		}
+		o << ctxStage(jobs, pickOf(line));
 		return o.str();
 	}
 	return "?";
@@ -359,6 +488,8 @@ static std::string handle(std::string const& line) {
 
 int main(int argc, char** argv) {
 	if (argc < 2) return 2;
+	omp_set_dynamic(0);                 // team sizes as requested (num_threads clause / omp_set_num_threads), whatever OMP_DYNAMIC says
+	omp_set_max_active_levels(1);       // nested parallelism off (the default): the library's loop inside a region runs on one thread
 	std::ifstream f(argv[1]);
 	std::string line;
 	while (std::getline(f, line)) {
